@@ -40,7 +40,10 @@ def seeded_table():
             caught.append(off["check"])
         hist = m.get("history", "")
         first = "missed" if hist.lower().startswith("missed") else ("widened first" if "widened before" in hist else "reported")
-        rows.append(f"| {os.path.basename(d)} | {m.get('property')} | {esc(m.get('needs', ''))[:260]} | {first} | {', '.join(caught) or 'none'} |")
+        now = ", ".join(caught) or "none"
+        if m.get("superseded_by_fix"):
+            now = "(superseded: the same mechanism was found in the unchanged tool and repaired)"
+        rows.append(f"| {os.path.basename(d)} | {m.get('property')} | {esc(m.get('needs', ''))[:260]} | {first} | {now} |")
     return "\n".join(rows)
 
 
